@@ -180,7 +180,7 @@ let () =
       | tok :: _ when String.length tok > 0 && tok.[0] = '#' -> ()
       | ["state"; id; fk; file] -> Hashtbl.replace states id (fork_of_string fk, blob file)
       | ["blk"; id; fk; file] -> Hashtbl.replace blocks id (fork_of_string fk, blob file)
-      | ["slots"; pre; target; post] when want ->
+      | "slots" :: pre :: target :: post :: _stags when want ->
           (match Hashtbl.find_opt states pre with
            | None -> report lineno false "slots: unknown pre id"
            | Some (f, b) ->
@@ -189,20 +189,36 @@ let () =
       | "trans" :: pre :: blk :: validate :: eng :: post :: _tags when want ->
           (match Hashtbl.find_opt states pre, Hashtbl.find_opt blocks blk with
            | Some (f, b), Some (bf, bb) ->
-               engine_verdict := (eng = "valid" || eng = "none");
+               (* engine=none means spec.ExecutionEngine is nil: nothing approves a payload *)
+               engine_verdict := (eng = "valid");
                engine_seen := [];
                let res = run_transition env f (bytes_of_string b) bf (bytes_of_string bb) (validate = "1") in
-               judge lineno res post ("trans[" ^ String.concat " " _tags ^ "]")
+               let why = match res with
+                 | RReject ->
+                     let stage = diagnose_transition env f (bytes_of_string b) bf (bytes_of_string bb) (validate = "1") in
+                     let extra =
+                       if stage = "state-root" then
+                         (match run_transition env f (bytes_of_string b) bf (bytes_of_string bb) false, Hashtbl.find_opt states post with
+                          | ROk (f2, p2, _), Some (_, gbytes) ->
+                              " differs-in=" ^ String.concat "," (diff_state_fields cfg f2 p2 (bytes_of_string gbytes))
+                          | _ -> "")
+                       else "" in
+                     " spec-stage=" ^ stage ^ extra
+                 | _ -> "" in
+               judge lineno res post ("trans[" ^ String.concat " " _tags ^ "]" ^ why)
            | _ -> report lineno false "trans: unknown pre/blk id")
-      | ["genesis"; hash; time; deps; post; valid] when want ->
+      | "genesis" :: hash :: time :: deps :: post :: valid :: _gtags when want ->
           let d = if deps = "-" then "" else blob deps in
-          let (res, v) = run_genesis env (bytes_of_string (string_of_hex hash)) (n_of_decimal time) (bytes_of_string d) in
-          judge lineno res post "genesis";
+          let ((res, v), small) = run_genesis env (bytes_of_string (string_of_hex hash)) (n_of_decimal time) (bytes_of_string d) in
+          (match res with
+           | ROk _ when small && post = "ERR" ->
+               report lineno true "genesis go-refuses-registry-smaller-than-SLOTS_PER_EPOCH (documented API limit; the Spec builds a state)"
+           | _ -> judge lineno res post "genesis");
           (match res with
            | ROk _ when valid <> "-" ->
                report lineno ((valid = "1") = v) (Printf.sprintf "genesis-validity spec=%b go=%s" v valid)
            | _ -> ())
-      | ["epc"; sid; live; fresh] when want ->
+      | "epc" :: sid :: live :: fresh :: _etags when want ->
           (match Hashtbl.find_opt states sid with
            | None -> report lineno false "epc: unknown state id"
            | Some (f, b) ->
